@@ -18,7 +18,7 @@ import (
 )
 
 type kase struct {
-	Path    string   `json:"path"`    // keyid | nodeid | nodeid-plain
+	Path    string   `json:"path"`    // keyid | nodeid | nodeid-emptyset | nodeid-plain
 	List    []string `json:"list"`    // records under the node id, in lookup order (R1 = K1's record, ...)
 	Claimed string   `json:"claimed"` // certificate key named in the request
 	Nonce   string   `json:"nonce"`   // K1 | K2 | U | missing | empty-nonce
@@ -93,6 +93,10 @@ func (w *world) one(k kase, r *engine.Report) (string, string) {
 	switch k.Path {
 	case "nodeid":
 		req.NodeId = "node-X"
+	case "nodeid-emptyset":
+		// a NodeIdLoader that reports "nothing under this node id" as an empty set without an error
+		req.NodeId = "node-X"
+		st.EmptySetNoError = true
 	case "nodeid-plain":
 		req.NodeId = "node-X"
 		storage = harness.Plain{S: st}
@@ -100,7 +104,7 @@ func (w *world) one(k kase, r *engine.Report) (string, string) {
 
 	// reference: which records does the lookup yield
 	var lookup []string
-	if k.Path == "nodeid" {
+	if k.Path == "nodeid" || k.Path == "nodeid-emptyset" {
 		lookup = k.List
 	} else {
 		for _, rn := range k.List {
@@ -199,7 +203,7 @@ func sigClass(s string, lookup []string) string {
 
 func cases(seed int64, emit func(kase)) {
 	lists := permsOfSubsets([]string{"R1", "R2", "R3"})
-	for _, path := range []string{"keyid", "nodeid", "nodeid-plain"} {
+	for _, path := range []string{"keyid", "nodeid", "nodeid-emptyset", "nodeid-plain"} {
 		for _, l := range lists {
 			for _, claimed := range []string{"K1", "U"} {
 				for _, nonce := range []string{"K1", "K2", "U", "missing", "empty-nonce"} {
@@ -255,7 +259,7 @@ func init() {
 	engine.Register(&engine.CheckDef{
 		ID:    "C05",
 		Level: "exploration",
-		Rule: "full product: lookup path {key id, node id on a NodeIdLoader, node id on a plain Storage} x every ordered subset of three records under the node id (16 lists) x claimed key {registered, unregistered} x nonce signer {K1, K2, unregistered, missing, empty nonce} x client state {absent, signed by K1 / K2 / unregistered, unsigned} x skip_verification {false,true} = 4800 calls of the real GenerateServerCertificates against a reference predicate; " +
+		Rule: "full product: lookup path {key id, node id on a NodeIdLoader that reports an empty result as ErrNotFound / as an empty set, node id on a plain Storage} x every ordered subset of three records under the node id (16 lists) x claimed key {registered, unregistered} x nonce signer {K1, K2, unregistered, missing, empty nonce} x client state {absent, signed by K1 / K2 / unregistered, unsigned} x skip_verification {false,true} = 6400 calls of the real GenerateServerCertificates against a reference predicate; " +
 			"distinct_nontrivial counts the cases (distinct by construction) with verification not waived",
 		Assumptions: []string{"a forged signature is a signature by another pool key or a missing one"},
 		Shards:      func(c *engine.Ctx) int { return 4 },
